@@ -1,8 +1,21 @@
-//! Test precompiles (capability-restricted `ParallelPrecompile`s) for C11 / C04 / C05.
+//! Test precompiles for C11 / C04 / C05, each written **once** against a small `Facade` trait and
+//! installed twice:
+//!
+//! * in grevm through `DynParallelPrecompile` (the production facade `ParallelPrecompileState` and
+//!   the production adapter `to_alloy`), and
+//! * in the in-order reference through a stock Alloy `DynPrecompile` whose facade and adapter are an
+//!   **independent re-statement of the documented contract** (`RefFacade` / `ref_adapter` below):
+//!   reads and writes go to the journal through Alloy's `EvmInternals`; a mutation in a static
+//!   context is refused before any change; the first fault the facade returns is sticky and takes
+//!   effect (halt or fatal) whatever the implementation returns afterwards.
+//!
+//! So a change to `src/precompile.rs` moves only one side of the comparison.
 
 use crate::world::*;
-use grevm::{DynParallelPrecompile, ParallelPrecompileError};
-use revm::precompile::{PrecompileError, PrecompileId, PrecompileOutput};
+use alloy_evm::precompiles::{DynPrecompile, PrecompileInput};
+use alloy_evm::EvmInternals;
+use grevm::{DynParallelPrecompile, ParallelPrecompileError, ParallelPrecompileState};
+use revm::precompile::{PrecompileError, PrecompileHalt, PrecompileId, PrecompileOutput};
 use revm_primitives::{Address, Bytes, U256};
 use std::sync::Arc;
 
@@ -17,6 +30,12 @@ pub const PC_FATAL_IF_ZERO: u64 = 4;
 pub const PC_FAULT_IGNORE: u64 = 5;
 pub const PC_PANIC: u64 = 6;
 pub const PC_READ_WRITE_READ: u64 = 7;
+/// maps any error of a facade read to its own *halt* (a database fault must still be fatal)
+pub const PC_READ_ERR_TO_HALT: u64 = 8;
+/// maps any error of a facade write to its own *fatal* error (a static refusal must still be a halt)
+pub const PC_WRITE_ERR_TO_FATAL: u64 = 9;
+/// writes, then reads back, then halts on request: writes of a halted call must not survive
+pub const PC_WRITE_THEN_HALT: u64 = 10;
 
 fn arg_addr(data: &[u8], i: usize) -> Address {
     let mut w = [0u8; 32];
@@ -37,112 +56,275 @@ fn arg_u256(data: &[u8], i: usize) -> U256 {
 
 pub const PC_PANIC_MSG: &str = "injected precompile panic";
 
+/// Facade error as the test bodies see it.
+#[derive(Clone, Debug)]
+pub enum FErr {
+    Halt(PrecompileHalt),
+    Fatal(PrecompileError),
+}
+
+/// The capability the bodies are written against.
+pub trait Facade {
+    fn balance(&mut self, a: Address) -> Result<U256, FErr>;
+    fn sload(&mut self, a: Address, k: U256) -> Result<U256, FErr>;
+    fn sstore(&mut self, a: Address, k: U256, v: U256) -> Result<(), FErr>;
+    fn set_balance(&mut self, a: Address, b: U256) -> Result<(), FErr>;
+}
+
+type Body = fn(&mut dyn Facade, &[u8], u64) -> Result<PrecompileOutput, FErr>;
+
+// ------------------------------------------------------------------------------------------------
+// the production side
+// ------------------------------------------------------------------------------------------------
+
+struct GrevmFacade<'a, 'b>(&'a mut ParallelPrecompileState<'b>);
+
+fn from_grevm(e: ParallelPrecompileError) -> FErr {
+    match e {
+        ParallelPrecompileError::Halt(h) => FErr::Halt(h),
+        ParallelPrecompileError::Fatal(f) => FErr::Fatal(f),
+    }
+}
+fn to_grevm(e: FErr) -> ParallelPrecompileError {
+    match e {
+        FErr::Halt(h) => ParallelPrecompileError::Halt(h),
+        FErr::Fatal(f) => ParallelPrecompileError::Fatal(f),
+    }
+}
+
+impl Facade for GrevmFacade<'_, '_> {
+    fn balance(&mut self, a: Address) -> Result<U256, FErr> {
+        self.0.balance(a).map(|l| l.data).map_err(from_grevm)
+    }
+    fn sload(&mut self, a: Address, k: U256) -> Result<U256, FErr> {
+        self.0.sload(a, k).map(|l| l.data).map_err(from_grevm)
+    }
+    fn sstore(&mut self, a: Address, k: U256, v: U256) -> Result<(), FErr> {
+        self.0.sstore(a, k, v).map(|_| ()).map_err(from_grevm)
+    }
+    fn set_balance(&mut self, a: Address, b: U256) -> Result<(), FErr> {
+        self.0.set_balance(a, b).map(|_| ()).map_err(from_grevm)
+    }
+}
+
+fn grevm_precompile(name: &str, body: Body) -> DynParallelPrecompile {
+    DynParallelPrecompile::new(PrecompileId::Custom(name.to_string().into()), move |input| {
+        let data = input.data().to_vec();
+        let reservoir = input.reservoir();
+        let mut f = GrevmFacade(input.state());
+        body(&mut f, &data, reservoir).map_err(to_grevm)
+    })
+}
+
+// ------------------------------------------------------------------------------------------------
+// the reference side: independent facade + adapter over stock Alloy
+// ------------------------------------------------------------------------------------------------
+
+struct RefFacade<'a> {
+    internals: EvmInternals<'a>,
+    is_static: bool,
+    fault: Option<FErr>,
+}
+
+impl RefFacade<'_> {
+    fn healthy(&self) -> Result<(), FErr> {
+        match &self.fault {
+            Some(f) => Err(f.clone()),
+            None => Ok(()),
+        }
+    }
+    fn fail<T>(&mut self, e: FErr) -> Result<T, FErr> {
+        if self.fault.is_none() {
+            self.fault = Some(e);
+        }
+        Err(self.fault.clone().unwrap())
+    }
+    fn db<T>(&mut self, e: impl std::fmt::Display) -> Result<T, FErr> {
+        self.fail(FErr::Fatal(PrecompileError::Fatal(e.to_string())))
+    }
+    fn mutable(&mut self) -> Result<(), FErr> {
+        self.healthy()?;
+        if self.is_static {
+            return self.fail(FErr::Halt(PrecompileHalt::other_static("state change during static call")));
+        }
+        Ok(())
+    }
+}
+
+impl Facade for RefFacade<'_> {
+    fn balance(&mut self, a: Address) -> Result<U256, FErr> {
+        self.healthy()?;
+        match self.internals.load_account(a) {
+            Ok(l) => Ok(l.data.info.balance),
+            Err(e) => self.db(e),
+        }
+    }
+    fn sload(&mut self, a: Address, k: U256) -> Result<U256, FErr> {
+        self.healthy()?;
+        match self.internals.sload(a, k) {
+            Ok(l) => Ok(l.data),
+            Err(e) => self.db(e),
+        }
+    }
+    fn sstore(&mut self, a: Address, k: U256, v: U256) -> Result<(), FErr> {
+        self.mutable()?;
+        match self.internals.sstore(a, k, v) {
+            Ok(_) => Ok(()),
+            Err(e) => self.db(e),
+        }
+    }
+    fn set_balance(&mut self, a: Address, b: U256) -> Result<(), FErr> {
+        self.mutable()?;
+        match self.internals.set_balance(a, b) {
+            Ok(()) => Ok(()),
+            Err(e) => self.db(e),
+        }
+    }
+}
+
+fn ref_precompile(name: &str, body: Body) -> DynPrecompile {
+    DynPrecompile::new_stateful(PrecompileId::Custom(name.to_string().into()), move |input: PrecompileInput<'_>| {
+        let PrecompileInput { data, reservoir, is_static, internals, .. } = input;
+        let mut f = RefFacade { internals, is_static, fault: None };
+        let result = body(&mut f, data, reservoir);
+        // a fault the facade returned takes effect whatever the implementation made of it
+        let result = match f.fault.take() {
+            Some(fault) => Err(fault),
+            None => result,
+        };
+        match result {
+            Ok(out) => Ok(out),
+            Err(FErr::Halt(h)) => Ok(PrecompileOutput::halt(h, reservoir)),
+            Err(FErr::Fatal(e)) => Err(e),
+        }
+    })
+}
+
+// ------------------------------------------------------------------------------------------------
+// the bodies
+// ------------------------------------------------------------------------------------------------
+
+fn point() {
+    grevm_verif_rt::point(grevm_verif_rt::pt::HARNESS_PRECOMPILE);
+}
+
+// (address, slot) -> balance(address) ++ sload(address, slot) ++ sload(address, slot) again
+fn b_read(f: &mut dyn Facade, data: &[u8], reservoir: u64) -> Result<PrecompileOutput, FErr> {
+    let a = arg_addr(data, 0);
+    let slot = arg_u256(data, 1);
+    point();
+    let bal = f.balance(a)?;
+    let v1 = f.sload(a, slot)?;
+    point();
+    let v2 = f.sload(a, slot)?;
+    let mut out = Vec::with_capacity(96);
+    out.extend_from_slice(&bal.to_be_bytes::<32>());
+    out.extend_from_slice(&v1.to_be_bytes::<32>());
+    out.extend_from_slice(&v2.to_be_bytes::<32>());
+    Ok(PrecompileOutput::new(150, Bytes::from(out), reservoir))
+}
+
+// (address, slot, value) -> sstore
+fn b_write(f: &mut dyn Facade, data: &[u8], reservoir: u64) -> Result<PrecompileOutput, FErr> {
+    f.sstore(arg_addr(data, 0), arg_u256(data, 1), arg_u256(data, 2))?;
+    Ok(PrecompileOutput::new(300, Bytes::new(), reservoir))
+}
+
+// mutates regardless of context and ignores the facade's refusal
+fn b_static_ignore(f: &mut dyn Facade, data: &[u8], reservoir: u64) -> Result<PrecompileOutput, FErr> {
+    let a = arg_addr(data, 0);
+    let _ = f.sstore(a, arg_u256(data, 1), U256::from(0xbad));
+    let _ = f.set_balance(a, U256::from(0xbad));
+    Ok(PrecompileOutput::new(100, Bytes::from(vec![1u8]), reservoir))
+}
+
+// (address, balance) -> set_balance
+fn b_set_balance(f: &mut dyn Facade, data: &[u8], reservoir: u64) -> Result<PrecompileOutput, FErr> {
+    f.set_balance(arg_addr(data, 0), arg_u256(data, 1))?;
+    Ok(PrecompileOutput::new(200, Bytes::new(), reservoir))
+}
+
+// (address, slot): fatal error iff the slot is zero (state-dependent fatal precompile error)
+fn b_fatal_if_zero(f: &mut dyn Facade, data: &[u8], reservoir: u64) -> Result<PrecompileOutput, FErr> {
+    let v = f.sload(arg_addr(data, 0), arg_u256(data, 1))?;
+    if v.is_zero() {
+        return Err(FErr::Fatal(PrecompileError::Fatal("slot is zero".into())));
+    }
+    Ok(PrecompileOutput::new(100, Bytes::from(v.to_be_bytes::<32>().to_vec()), reservoir))
+}
+
+// reads and ignores a database fault returned by the facade
+fn b_fault_ignore(f: &mut dyn Facade, data: &[u8], reservoir: u64) -> Result<PrecompileOutput, FErr> {
+    let v = f.sload(arg_addr(data, 0), arg_u256(data, 1)).unwrap_or(U256::from(0xdead));
+    Ok(PrecompileOutput::new(100, Bytes::from(v.to_be_bytes::<32>().to_vec()), reservoir))
+}
+
+fn b_panic(_f: &mut dyn Facade, _data: &[u8], _reservoir: u64) -> Result<PrecompileOutput, FErr> {
+    panic!("{}", PC_PANIC_MSG);
+}
+
+// (address, slot, value): read, write old + value, read again -> old ++ new (read-your-writes)
+fn b_rwr(f: &mut dyn Facade, data: &[u8], reservoir: u64) -> Result<PrecompileOutput, FErr> {
+    let a = arg_addr(data, 0);
+    let slot = arg_u256(data, 1);
+    let old = f.sload(a, slot)?;
+    f.sstore(a, slot, old + arg_u256(data, 2))?;
+    point();
+    let new = f.sload(a, slot)?;
+    let mut out = Vec::with_capacity(64);
+    out.extend_from_slice(&old.to_be_bytes::<32>());
+    out.extend_from_slice(&new.to_be_bytes::<32>());
+    Ok(PrecompileOutput::new(400, Bytes::from(out), reservoir))
+}
+
+// (address, slot): balance + sload; any facade error becomes this implementation's own halt
+fn b_read_err_to_halt(f: &mut dyn Facade, data: &[u8], reservoir: u64) -> Result<PrecompileOutput, FErr> {
+    let a = arg_addr(data, 0);
+    let own = || FErr::Halt(PrecompileHalt::other_static("read failed"));
+    let bal = f.balance(a).map_err(|_| own())?;
+    let v = f.sload(a, arg_u256(data, 1)).map_err(|_| own())?;
+    Ok(PrecompileOutput::new(120, Bytes::from((bal + v).to_be_bytes::<32>().to_vec()), reservoir))
+}
+
+// (address, slot, value): sstore; any facade error becomes this implementation's own fatal error
+fn b_write_err_to_fatal(f: &mut dyn Facade, data: &[u8], reservoir: u64) -> Result<PrecompileOutput, FErr> {
+    f.sstore(arg_addr(data, 0), arg_u256(data, 1), arg_u256(data, 2))
+        .map_err(|_| FErr::Fatal(PrecompileError::Fatal("write failed".into())))?;
+    Ok(PrecompileOutput::new(300, Bytes::new(), reservoir))
+}
+
+// (address, slot, value, halt?): sstore, set_balance(+1), then halt iff the fourth word is non-zero
+fn b_write_then_halt(f: &mut dyn Facade, data: &[u8], reservoir: u64) -> Result<PrecompileOutput, FErr> {
+    let a = arg_addr(data, 0);
+    f.sstore(a, arg_u256(data, 1), arg_u256(data, 2))?;
+    let bal = f.balance(a)?;
+    f.set_balance(a, bal + U256::from(1u64))?;
+    if !arg_u256(data, 3).is_zero() {
+        return Err(FErr::Halt(PrecompileHalt::other_static("halt after write")));
+    }
+    Ok(PrecompileOutput::new(350, Bytes::new(), reservoir))
+}
+
+const TABLE: &[(u64, &str, Body)] = &[
+    (PC_READ, "verif-read", b_read),
+    (PC_WRITE, "verif-write", b_write),
+    (PC_STATIC_IGNORE, "verif-static-ignore", b_static_ignore),
+    (PC_SET_BALANCE, "verif-set-balance", b_set_balance),
+    (PC_FATAL_IF_ZERO, "verif-fatal-if-zero", b_fatal_if_zero),
+    (PC_FAULT_IGNORE, "verif-fault-ignore", b_fault_ignore),
+    (PC_PANIC, "verif-panic", b_panic),
+    (PC_READ_WRITE_READ, "verif-rwr", b_rwr),
+    (PC_READ_ERR_TO_HALT, "verif-read-err-to-halt", b_read_err_to_halt),
+    (PC_WRITE_ERR_TO_FATAL, "verif-write-err-to-fatal", b_write_err_to_fatal),
+    (PC_WRITE_THEN_HALT, "verif-write-then-halt", b_write_then_halt),
+];
+
+/// The precompiles as grevm receives them.
 pub fn all() -> Arc<Vec<(Address, DynParallelPrecompile)>> {
-    let id = |s: &str| PrecompileId::Custom(s.to_string().into());
-    let v = vec![
-        // (address, slot) -> balance(address) ++ sload(address, slot) ++ sload(address, slot) again
-        (
-            pc_addr(PC_READ),
-            DynParallelPrecompile::new(id("verif-read"), |input| {
-                let reservoir = input.reservoir();
-                let a = arg_addr(input.data(), 0);
-                let slot = arg_u256(input.data(), 1);
-                grevm_verif_rt::point(grevm_verif_rt::pt::HARNESS_PRECOMPILE);
-                let bal = input.state().balance(a)?.data;
-                let v1 = input.state().sload(a, slot)?.data;
-                grevm_verif_rt::point(grevm_verif_rt::pt::HARNESS_PRECOMPILE);
-                let v2 = input.state().sload(a, slot)?.data;
-                let mut out = Vec::with_capacity(96);
-                out.extend_from_slice(&bal.to_be_bytes::<32>());
-                out.extend_from_slice(&v1.to_be_bytes::<32>());
-                out.extend_from_slice(&v2.to_be_bytes::<32>());
-                Ok(PrecompileOutput::new(150, Bytes::from(out), reservoir))
-            }),
-        ),
-        // (address, slot, value) -> sstore
-        (
-            pc_addr(PC_WRITE),
-            DynParallelPrecompile::new(id("verif-write"), |input| {
-                let reservoir = input.reservoir();
-                let a = arg_addr(input.data(), 0);
-                let slot = arg_u256(input.data(), 1);
-                let value = arg_u256(input.data(), 2);
-                input.state().sstore(a, slot, value)?;
-                Ok(PrecompileOutput::new(300, Bytes::new(), reservoir))
-            }),
-        ),
-        // mutates regardless of context and ignores the facade's refusal
-        (
-            pc_addr(PC_STATIC_IGNORE),
-            DynParallelPrecompile::new(id("verif-static-ignore"), |input| {
-                let reservoir = input.reservoir();
-                let a = arg_addr(input.data(), 0);
-                let slot = arg_u256(input.data(), 1);
-                let _ = input.state().sstore(a, slot, U256::from(0xbad));
-                let _ = input.state().set_balance(a, U256::from(0xbad));
-                Ok(PrecompileOutput::new(100, Bytes::from(vec![1u8]), reservoir))
-            }),
-        ),
-        // (address, balance) -> set_balance
-        (
-            pc_addr(PC_SET_BALANCE),
-            DynParallelPrecompile::new(id("verif-set-balance"), |input| {
-                let reservoir = input.reservoir();
-                let a = arg_addr(input.data(), 0);
-                let b = arg_u256(input.data(), 1);
-                input.state().set_balance(a, b)?;
-                Ok(PrecompileOutput::new(200, Bytes::new(), reservoir))
-            }),
-        ),
-        // (address, slot): fatal error iff the slot is zero (state-dependent fatal precompile error)
-        (
-            pc_addr(PC_FATAL_IF_ZERO),
-            DynParallelPrecompile::new(id("verif-fatal-if-zero"), |input| {
-                let reservoir = input.reservoir();
-                let a = arg_addr(input.data(), 0);
-                let slot = arg_u256(input.data(), 1);
-                let v = input.state().sload(a, slot)?.data;
-                if v.is_zero() {
-                    return Err(ParallelPrecompileError::Fatal(PrecompileError::Fatal("slot is zero".into())));
-                }
-                Ok(PrecompileOutput::new(100, Bytes::from(v.to_be_bytes::<32>().to_vec()), reservoir))
-            }),
-        ),
-        // reads and ignores a database fault returned by the facade
-        (
-            pc_addr(PC_FAULT_IGNORE),
-            DynParallelPrecompile::new(id("verif-fault-ignore"), |input| {
-                let reservoir = input.reservoir();
-                let a = arg_addr(input.data(), 0);
-                let slot = arg_u256(input.data(), 1);
-                let v = input.state().sload(a, slot).map(|l| l.data).unwrap_or(U256::from(0xdead));
-                Ok(PrecompileOutput::new(100, Bytes::from(v.to_be_bytes::<32>().to_vec()), reservoir))
-            }),
-        ),
-        (
-            pc_addr(PC_PANIC),
-            DynParallelPrecompile::new(id("verif-panic"), |_input| {
-                panic!("{}", PC_PANIC_MSG);
-            }),
-        ),
-        // (address, slot, value): read, write value, read again -> old ++ new (read-your-writes)
-        (
-            pc_addr(PC_READ_WRITE_READ),
-            DynParallelPrecompile::new(id("verif-rwr"), |input| {
-                let reservoir = input.reservoir();
-                let a = arg_addr(input.data(), 0);
-                let slot = arg_u256(input.data(), 1);
-                let value = arg_u256(input.data(), 2);
-                let old = input.state().sload(a, slot)?.data;
-                input.state().sstore(a, slot, old + value)?;
-                grevm_verif_rt::point(grevm_verif_rt::pt::HARNESS_PRECOMPILE);
-                let new = input.state().sload(a, slot)?.data;
-                let mut out = Vec::with_capacity(64);
-                out.extend_from_slice(&old.to_be_bytes::<32>());
-                out.extend_from_slice(&new.to_be_bytes::<32>());
-                Ok(PrecompileOutput::new(400, Bytes::from(out), reservoir))
-            }),
-        ),
-    ];
-    Arc::new(v)
+    Arc::new(TABLE.iter().map(|(i, name, body)| (pc_addr(*i), grevm_precompile(name, *body))).collect())
+}
+
+/// The same bodies behind the independent reference facade, for the in-order stock-revm run.
+pub fn all_ref() -> Arc<Vec<(Address, DynPrecompile)>> {
+    Arc::new(TABLE.iter().map(|(i, name, body)| (pc_addr(*i), ref_precompile(name, *body))).collect())
 }
